@@ -344,6 +344,8 @@ class SimFS:
 
     def _check_parents(self, q):
         """ENOENT/ENOTDIR for a missing / non-directory ancestor."""
+        if q == self.root:
+            return
         parent = posixpath.dirname(q)
         cur = self.root
         for part in self.rel(parent).split("/") if parent != self.root else []:
